@@ -78,7 +78,7 @@ CLAIMED = {
     "C08": dict(
         text="Coq theorems over the yield-point-granular interleaving model of boxcar.rs: Location::of is injective, in range and tiles the index space for every valid u32 index (C08_location*, arithmetic with N.log2, no sweep); a reservation returns exactly the next free indices (distinct, gap-free: C08_reserve, C08_exclusive); a lookup returns nothing or a completely written item of an assigned index with exactly the columns its fill produced (C08_no_phantom); when push returns its item is visible (C08_push_visible) and stays visible at the same index with the same content forever (C08_stable); an index owned by an unfinished writer is invisible (C08_owned_invisible); the counter never decreases (C08_count_mono). For every well-formed history: any number of threads, push / extend of any batch size with lying iterators and panicking fills, any interleaving, any capacity. Tie: real threads parked by a scheduler at every yield point (after fetch_add, before every bucket CAS, before every publication), stepped by random schedules incl. bucket-boundary races; every observation compared with the extracted model and checked by the spec oracle.",
         design_ref="DESIGN.md section 6, C08",
-        note="Trusted: Coq kernel, translator (SKIP, BUCKETS, MAX_ENTRIES), extraction, scheduler harness; sequential consistency at yield-point granularity (release/acquire is C09). Axioms: none.",
+        note="Trusted: Coq kernel, translator (SKIP, BUCKETS, MAX_ENTRIES; bucket_init_before_publish - the structural reading of get_or_alloc / Bucket::alloc behind the obligation C08_bucket_init_before_publish: flags are cleared before the CAS that publishes a bucket and the winner does nothing more to it), extraction, scheduler harness; sequential consistency at yield-point granularity (release/acquire is C09). Axioms: none.",
         technique="Coq inductive invariant over an interleaving LTS + scheduled-history correspondence",
     ),
     "C09": dict(
@@ -102,7 +102,7 @@ CLAIMED = {
     "C06": dict(
         text="Coq theorem over the protocol model (Model/Nucleo.v, Proofs/SnapshotFacts.v, 2300 lines, an inductive invariant through every phase of Worker::run, tick_inner and the injectors): in EVERY state reachable by a well-formed history with truthful append flags - any interleaving, any timeout / cancellation, runs stopped anywhere, whatever the parallel scan happened to see - the snapshot's matches are duplicate-free, never a placeholder, initialised items of the snapshot's stream carrying exactly the score of the snapshot's pattern; a set of exactly item_count() initialised processed items contains all matches and every processed item the pattern matches is reported; the order is score descending, column length ascending, index ascending, or index order for the empty pattern (C06_snapshot). Hypothesis: no stream exceeds u32::MAX reservations (guaranteed by boxcar's capacity check, C11); without it the statement is refuted for the unbounded model (C06_unbounded_refuted). Tie: model-guided scheduled histories (17 styles: writers parked mid-push, restart-heavy incl. back-to-back restarts, zero-timeout ticks, cancel-heavy, retype, stale run at restart, bulk extends with ties, cancelled run then empty pattern, scan cancelled by an append edit, two columns typed between two ticks, run finishing right after spawn, tick stepped into the held lock, cancelled Rescore then append) replayed on the real Nucleo; every observation compared with the extracted model and checked by an independent oracle (scores from the real Pattern::score).",
         design_ref="DESIGN.md section 6, C06",
-        note="Trusted: Coq kernel, extraction, scheduler harness; interleavings at yield-point granularity with the scan's view over-approximated by a parameter; matcher scores are a table computed by the real Pattern::score (matcher correctness is C01-C05, pattern scoring C15); par_sort's contract is C18. Axioms: none.",
+        note="Trusted: Coq kernel, extraction, scheduler harness; interleavings at yield-point granularity with the scan's view over-approximated by a parameter; the event alphabet includes Nucleo::update_config with the unchanged configuration (EConfig / `cfg`: takes the worker lock, changes nothing); every observation also reads Snapshot::matched_items(range) (four bound shapes, len, rev) against matches(); matcher scores are a table computed by the real Pattern::score (matcher correctness is C01-C05, pattern scoring C15); par_sort's contract is C18. Axioms: none.",
         technique="Coq inductive invariant over the protocol LTS + scheduled-history correspondence",
     ),
     "C07": dict(
@@ -155,7 +155,7 @@ def main():
         ],
         "checks": [],
         "not_applicable": [],
-        "notes": "All checks are `./check <id>`; VERIF_SEED and VERIF_TIER are honoured. known_findings.json lists three known findings (K1: C01/C05, K2: C04, K3: C07 - printed as KNOWN-FINDING lines, exit 0) and the defects repaired by fix: commits (fixed entries suppress nothing). When the translator cannot regenerate GenScore.v / GenTables.v the kept file is validated against the built code by values (tools/fallback.py; reported as a note: line and in the evidence field translator_fallback). seeded/ holds 199 confirmed source changes with the verdict of every check that was run on them (seeded/README.md); DESIGN.md section 0 is the build status.",
+        "notes": "All checks are `./check <id>`; VERIF_SEED and VERIF_TIER are honoured. known_findings.json lists three known findings (K1: C01/C05, K2: C04, K3: C07 - printed as KNOWN-FINDING lines, exit 0) and the defects repaired by fix: commits (fixed entries suppress nothing). When the translator cannot regenerate GenScore.v / GenTables.v the kept file is validated against the built code by values (tools/fallback.py; reported as a note: line and in the evidence field translator_fallback). seeded/ holds 236 confirmed source changes (six rounds) with the verdict of every check that was run on them (seeded/README.md); DESIGN.md section 0 is the build status.",
     }
     for cid in ALL:
         if cid in CLAIMED:
